@@ -22,7 +22,7 @@ m = {
     "version": 1,
     "setup_cmd": "cd /verif/sim && CARGO_NET_OFFLINE=true cargo build --release --offline",
     "hooks": {
-        "guard": "cargo feature __verif (crates polytune and polytune-server-core)",
+        "guard": "cargo feature __verif (crates polytune, polytune-server-core and polytune-http-server)",
         "enable": "the harness crate /verif/sim depends on polytune and polytune-server-core by path (/repo) with features [\"__bench\", \"__verif\"]; RUSTFLAGS (in /verif/sim/.cargo/config.toml) add --cfg getrandom_backend=\"custom\" and --cfg tokio_unstable for the harness build only",
         "baseline_off_cmd": "cd /repo && cargo nextest run --workspace --no-fail-fast --tool-config-file pb:/w/lib/nextest.toml --profile pb --test-threads 8 --offline",
         "source_commits": [l.split()[0] for l in hook_commits],
